@@ -1,5 +1,6 @@
 """C10 – outputs satisfy their structural invariants on every input."""
 from ..oracles import common as cm
+from ..oracles import framework as fw
 from ..oracles import indinv as oi
 
 ID = "C10"
@@ -17,7 +18,11 @@ PARTIAL = 'exact ordered field; invariants per call (reachable-state hypotheses 
 def oracle(ctx):
     quick = ctx["tier"] == "quick"
     n = (26 * (500 if quick else 2000)) * ctx["boost"]
-    return cm.run_cases(oi.case, ctx["seed"], ID, n, {"size": 60 if quick else 250})
+    return cm.merge_results(cm.run_cases(oi.case, ctx["seed"], ID, n, {"size": 60 if quick else 250}),
+                            cm.run_cases(fw.c10_rounded_case, ctx["seed"], ID + "r", (300 if quick else 3000) * ctx["boost"], {"size": 40}))
 
 
-replay = oi.replay
+def replay(w):
+    if "indices" in w["scenario"]:
+        return fw.c10_rounded_replay(w)
+    return oi.replay(w)
